@@ -146,6 +146,39 @@ theorem Cursor.exec_ending (r : StartOut) : ∀ (calls : List Call) (c : Cursor)
     · exact Cursor.step_ending r c k
     · rw [ih, Cursor.step_ending]
 
+/-- simulation restricted to a class of calls -/
+theorem run_eq_of_sim_on (P : Call → Prop) (r : StartOut) (R : M → Cursor → Prop)
+    (hstep : ∀ m c k, P k → R m c → (step m k).2 = (c.step r k).2 ∧
+      ((step m k).2.stuck = false → R (step m k).1 (c.step r k).1)) :
+    ∀ (calls : List Call) (m : M) (c : Cursor), (∀ k ∈ calls, P k) → R m c →
+      run m calls = Cursor.run r c calls ∧
+      ((∀ o ∈ run m calls, o.stuck = false) → R (exec m calls) (Cursor.exec r c calls)) := by
+  intro calls
+  induction calls with
+  | nil => intro m c _ hR; exact ⟨rfl, fun _ => hR⟩
+  | cons k ks ih =>
+    intro m c hP hR
+    obtain ⟨ho, hn⟩ := hstep m c k (hP k (List.mem_cons_self ..)) hR
+    have hP' : ∀ k' ∈ ks, P k' := fun k' hk' => hP k' (List.mem_cons_of_mem _ hk')
+    by_cases hs : (step m k).2.stuck = true
+    · have hs' : (c.step r k).2.stuck = true := by rw [← ho]; exact hs
+      refine ⟨?_, fun hns => ?_⟩
+      · simp only [run, Cursor.run, hs, hs', if_true, ho]
+      · have := hns (step m k).2 (by simp [run])
+        rw [hs] at this; cases this
+    · have hs0 : (step m k).2.stuck = false := by simpa using hs
+      have hs' : (c.step r k).2.stuck = false := by rw [← ho]; exact hs0
+      obtain ⟨ih1, ih2⟩ := ih _ _ hP' (hn hs0)
+      refine ⟨?_, fun hns => ?_⟩
+      · simp only [run, Cursor.run, hs0, hs', Bool.false_eq_true, if_false, ho, ih1]
+      · show R (if (step m k).2.stuck then (step m k).1 else exec (step m k).1 ks)
+          (if (c.step r k).2.stuck then (c.step r k).1 else Cursor.exec r (c.step r k).1 ks)
+        rw [hs0, hs']
+        simp only [Bool.false_eq_true, if_false]
+        refine ih2 (fun o ho' => hns o ?_)
+        simp only [run, hs0, Bool.false_eq_true, if_false, List.mem_cons]
+        exact Or.inr ho'
+
 theorem fuelOf_succ (m : M) : fuelOf m = (2 * remaining m.s + 2 * m.chain.length + 3) + 1 := rfl
 
 /-- `exec` and `run` stop at the same place -/
